@@ -26,6 +26,7 @@ type env struct {
 	inOld       bool
 	fvAddrs     map[string]tval // captured variables of a closure: name -> address
 	fvSrc       map[string]ssa.Value // the FreeVar (inside the literal) or the bound Alloc (at the MakeClosure)
+	iterFrom    *ssa.BasicBlock // iteration-ensures: names resolve to values that dominate this back-edge source
 }
 
 type specError string
@@ -55,6 +56,16 @@ func (e *fnEnc) contractEnv(st, old *state, li *loopInfo) *env {
 // calleeEnv: names are the callee's parameter names bound to the call's arguments.
 func (e *fnEnc) calleeEnv(st, old *state, c *ssa.CallCommon, callee *ssa.Function, args []tval) *env {
 	en := &env{e: e, st: st, old: old, names: map[string]tval{}}
+	if mc, ok := c.Value.(*ssa.MakeClosure); ok && callee != nil {
+		en.fvAddrs = map[string]tval{}
+		en.fvSrc = map[string]ssa.Value{}
+		for i, fv := range callee.FreeVars {
+			if i < len(mc.Bindings) {
+				en.fvAddrs[fv.Name()] = tval{term: e.val(mc.Bindings[i]), typ: fv.Type()}
+				en.fvSrc[fv.Name()] = mc.Bindings[i]
+			}
+		}
+	}
 	sig := c.Signature()
 	var names []string
 	if callee != nil && len(callee.Params) == len(args) {
@@ -306,6 +317,13 @@ func (en *env) ident(name string) tval {
 	// captured variable of a closure: its current value
 	if a, ok := en.fvAddrs[name]; ok {
 		if src, ok := en.fvSrc[name]; ok {
+			if al, isAlloc := src.(*ssa.Alloc); isAlloc {
+				if lv, isLocal := en.st.locals[al]; isLocal {
+					if pt, isPtr := a.typ.Underlying().(*types.Pointer); isPtr {
+						return tval{term: lv, typ: pt.Elem()}
+					}
+				}
+			}
 			if cv, isConst := en.e.constCell(src); isConst {
 				if pt, isPtr := a.typ.Underlying().(*types.Pointer); isPtr {
 					return tval{term: cv, typ: pt.Elem()}
@@ -334,7 +352,15 @@ func (en *env) ident(name string) tval {
 	}
 	// source-level variables of the function being verified
 	if en.fn != nil && en.fn == en.e.fn {
-		if v, ok := en.e.resolveSourceVar(name, en.loop, en.st); ok {
+		if en.iterFrom != nil {
+			saved := en.e.curBlock
+			en.e.curBlock = en.iterFrom
+			v, ok := en.e.resolveSourceVar(name, nil, en.st)
+			en.e.curBlock = saved
+			if ok {
+				return v
+			}
+		} else if v, ok := en.e.resolveSourceVar(name, en.loop, en.st); ok {
 			return v
 		}
 	}
@@ -762,10 +788,19 @@ type modAddr struct {
 	sort   *Sort
 	mapObj string // map (or ghost map) handle: its whole content
 	mapTyp types.Type
+	ghostFlag string
 }
 
 // modAddrs expands one `modifies` item: an lvalue, or elems(s).
 func (en *env) modAddrs(m Expr) []modAddr {
+	if c, ok := m.(*ECall); ok && c.Fun == "flag" {
+		x := en.eval(c.Args[0])
+		ref := x.term
+		if en.e.sortOf(x.typ).kind == skIface {
+			ref = app("i_val", x.term)
+		}
+		return []modAddr{{ghostFlag: ref}}
+	}
 	if c, ok := m.(*ECall); ok && c.Fun == "spare" {
 		// spare(s): the spare capacity of s (cells len(s) .. cap(s)-1 of its backing array)
 		s := en.eval(c.Args[0])
@@ -809,6 +844,9 @@ func (en *env) inModifies(m Expr, addr string) string {
 		}
 		if ma.mapObj != "" {
 			alts = append(alts, eq(addr, ma.mapObj))
+			continue
+		}
+		if ma.ghostFlag != "" {
 			continue
 		}
 		alts = append(alts, en.cellCovers(ma.addr, ma.typ, addr))
@@ -927,6 +965,40 @@ func (en *env) callExpr(v *ECall) tval {
 		x := en.eval(v.Args[0])
 		t := en.typeArg(v.Args[1])
 		return tval{term: app("i_val", x.term), typ: t}
+	case "flag":
+		// flag(x): a monotone ghost flag on the object x refers to (set by contracts that list it
+		// under modifies and ensure it; never reset; survives havocs)
+		x := en.eval(v.Args[0])
+		ref := x.term
+		if en.e.sortOf(x.typ).kind == skIface {
+			ref = app("i_val", x.term)
+		}
+		mapCellSorts["gflag"] = sortBool
+		return tval{term: fmt.Sprintf("(select %s %s)", en.e.heap(en.st, "gflag", sortBool), ref), typ: types.Typ[types.Bool]}
+	case "sent":
+		// sent(ch, v): the pointer v was sent on channel ch by this function (ghost log filled by
+		// send statements and select send cases). A value that is not defined on the path being
+		// checked was not sent on it.
+		ch := en.eval(v.Args[0])
+		var val tval
+		okv := func() (ok bool) {
+			defer func() {
+				if r := recover(); r != nil {
+					if _, isU := r.(unsupported); isU && en.iterFrom != nil {
+						ok = false
+						return
+					}
+					panic(r)
+				}
+			}()
+			val = en.eval(v.Args[1])
+			return true
+		}()
+		if !okv {
+			return tval{term: "false", typ: types.Typ[types.Bool]}
+		}
+		mapCellSorts["sentlog"] = &Sort{name: "(Array Ref Bool)"}
+		return tval{term: fmt.Sprintf("(select (select %s %s) %s)", en.e.heap(en.st, "sentlog", mapCellSorts["sentlog"]), ch.term, val.term), typ: types.Typ[types.Bool]}
 	case "soff":
 		x := en.eval(v.Args[0])
 		return tval{term: app("s_off", x.term), typ: types.Typ[types.Int]}
